@@ -19,7 +19,8 @@ RULE = (
     "M(prog, ov) (with subcircuits desugared once expand_subcircuits ran) - hence all orders agree; applying the "
     "same pass again gives an == circuit with identical generated text (idempotence); generate -> parse succeeds "
     "and has the same meaning (legality).  Separately every parser flag combination (expand_macro, expand_let, "
-    "expand_let_map, override_dict) must equal the explicit composition on the plain parse (== and text). "
+    "expand_let_map, override_dict) must equal the explicit composition on the plain parse (== and text), and "
+    "parse_jaqal_file on a file holding the same text, with the same flags and overrides, must give an equal circuit. "
     "Non-trivial = history of >= 3 steps with >= 2 different passes on a program with >= 2 macro levels or a "
     "subcircuit inside a loop or macro. distinct = (text, overrides, history)."
 )
@@ -233,6 +234,20 @@ def flags(case):
         s2, t2 = guard(generate, e, what="generate")
         if s1 != s2 or (s1 == "ok" and t1 != t2):
             raise Violation("flag-vs-explicit-text", f"{t1}\n!=\n{t2}\n{ctx}")
+    # the file entry point takes the same flags and overrides: same outcome, equal circuit
+    import os
+    import tempfile
+    from jaqalpaq.parser import parse_jaqal_file
+
+    with tempfile.TemporaryDirectory(prefix="c10_") as d:
+        fname = os.path.join(d, "prog.jaqal")
+        with open(fname, "w") as fh:
+            fh.write(text)
+        st_f, pf = guard(parse_jaqal_file, fname, override_dict=dict(env) if env else None, autoload_pulses=False, what="parse_jaqal_file(flags)", **fl)
+    if st_f != st_p:
+        raise Violation("file-vs-string-outcome", f"string: {st_p} {p if st_p=='err' else ''}; file: {st_f} {pf if st_f=='err' else ''}\n{ctx}")
+    if st_f == "ok" and (not (pf == p) or not (p == pf)):
+        raise Violation("file-vs-string-unequal", f"parse_jaqal_file(...) != parse_jaqal_string(...) with the same flags and overrides\n{ctx}")
     nt = sum(fl.values()) >= 2 or (bool(env) and any(fl.values()))
     return {"nontrivial": nt, "classes": ["flags:" + "".join("1" if fl[k] else "0" for k in sorted(fl)), "outcome:" + st_p], "key": text + repr(fl) + repr(sorted(env.items()))}
 
